@@ -1,18 +1,29 @@
 #!/bin/sh
-# usage: tools/matrix.sh [budget_s] [id-prefix]  -- applies every kept seeded change to /repo in turn, runs the quick check of its property,
-# undoes it, records the outcome in seeded/<id>/trial.txt and in meta.json, and writes seeded/MATRIX.md
-budget="${1:-20}"; prefix="${2:-C}"
+# usage: tools/matrix.sh [budget_s] [id-glob]  -- tries every kept seeded change against the quick check of its property and records the
+# outcome in seeded/<id>/trial.txt, seeded/<id>/meta.json and seeded/MATRIX.md.
+# It works on a scratch worktree of /repo (HEAD) and a scratch copy of the driver crate under /tmp/scverif-matrix, selected through
+# SCVERIF_REPO / SCVERIF_DRIVER_DIR (see scverif/core.py), so /repo itself is not touched and other checks can run meanwhile.
+budget="${1:-20}"; glob="${2:-C}"
 cd /verif || exit 2
-if ! git -C /repo diff --quiet; then echo "/repo has uncommitted changes"; exit 2; fi
-for d in seeded/${prefix}*/; do
+MX=/tmp/scverif-matrix
+rm -rf "$MX/driver" "$MX/work" "$MX/evidence" "$MX/replays"; mkdir -p "$MX"
+git -C /repo worktree remove --force "$MX/repo" 2>/dev/null; git -C /repo worktree prune
+git -C /repo worktree add -q --detach "$MX/repo" HEAD || exit 2
+cp /repo/Cargo.lock "$MX/repo/" 2>/dev/null
+mkdir -p "$MX/driver" && cp -r driver/Cargo.toml driver/src "$MX/driver/" && cp driver/Cargo.lock "$MX/driver/" 2>/dev/null
+sed -i "s|path = \"/repo\"|path = \"$MX/repo\"|" "$MX/driver/Cargo.toml"
+export SCVERIF_REPO="$MX/repo" SCVERIF_DRIVER_DIR="$MX/driver" SCVERIF_WORK_DIR="$MX/work" SCVERIF_EVIDENCE_DIR="$MX/evidence" SCVERIF_REPLAY_DIR="$MX/replays"
+for d in seeded/${glob}*/; do
   id=$(basename "$d"); prop=${id%%-*}
+  [ -f "$d/meta.json" ] || continue
   if grep -q '"neutralised_by_fix"' "$d/meta.json"; then echo "$id neutralised"; continue; fi
-  if ! git -C /repo apply "/verif/$d/patch.diff" 2>/dev/null; then echo "$id PATCH-DOES-NOT-APPLY"; echo "patch does not apply to the current tree" > "$d/trial.txt"; continue; fi
-  ./verif check "$prop" --budget "$budget" > /tmp/matrix_$id.out 2>&1; rc=$?
-  git -C /repo checkout -- .
-  { echo "check: ./verif check $prop --budget $budget (VERIF_SEED=${VERIF_SEED:-0}), /repo at $(git -C /repo log --format=%h -1) + patch.diff; exit code $rc"; grep -E "^(VIOLATION|INCONCLUSIVE|NOTE)|^  signature" /tmp/matrix_$id.out | grep -v "^VIOLATION" | head -12; } > "$d/trial.txt"
+  git -C "$MX/repo" checkout -q -- .
+  if ! git -C "$MX/repo" apply "/verif/$d/patch.diff" 2>/dev/null; then echo "$id PATCH-DOES-NOT-APPLY"; echo "patch does not apply to the current tree" > "$d/trial.txt"; continue; fi
+  ./verif check "$prop" --budget "$budget" > "$MX/out_$id.txt" 2>&1; rc=$?
+  git -C "$MX/repo" checkout -q -- .
+  { echo "check: ./verif check $prop --budget $budget (VERIF_SEED=${VERIF_SEED:-0}) on a scratch worktree of /repo at $(git -C /repo log --format=%h -1) + patch.diff; exit code $rc"; grep -E "^(INCONCLUSIVE|NOTE)|^  signature" "$MX/out_$id.txt" | head -12; } > "$d/trial.txt"
   python3 - "$d" "$rc" <<'PY'
-import json,sys,re
+import json,sys
 d,rc=sys.argv[1],int(sys.argv[2])
 m=json.load(open(d+'/meta.json'))
 sigs=[l.split(':',1)[1].strip() for l in open(d+'/trial.txt') if l.startswith('  signature:')]
@@ -20,13 +31,14 @@ m['detected_by_quick_check']='yes' if rc==1 else ('inconclusive' if rc==2 else '
 m['signatures_reported']=sigs[:12]
 json.dump(m,open(d+'/meta.json','w'),indent=1)
 PY
-  echo "$id rc=$rc $(grep -c '^VIOLATION' /tmp/matrix_$id.out) signatures"
-  rm -f /tmp/matrix_$id.out
+  echo "$id rc=$rc $(grep -c '^VIOLATION' "$MX/out_$id.txt") signatures"
+  rm -f "$MX/out_$id.txt"
 done
+git -C /repo worktree remove --force "$MX/repo"; rm -rf "$MX"
 python3 - <<'PY'
 import json,os
 rows=[]
-for d in sorted(os.listdir('/verif/seeded')):
+for d in sorted(os.listdir('/verif/seeded'), key=lambda x:(x.split('-m')[0], int(x.split('-m')[1])) if '-m' in x else (x,0)):
     p='/verif/seeded/%s/meta.json'%d
     if not os.path.exists(p): continue
     m=json.load(open(p))
@@ -35,7 +47,7 @@ for d in sorted(os.listdir('/verif/seeded')):
     if os.path.exists(np): title=open(np).read().strip().split('\n')[0].lstrip('# ').strip()
     det=m.get('detected_by_quick_check')
     if m.get('neutralised_by_fix'): det='n/a (neutralised by fix %s)'%m['neutralised_by_fix']
-    sig=', '.join('`%s`'%s.split(' (')[0] for s in m.get('signatures_reported',[])[:2])
+    sig=', '.join('`%s`'%s.split(' (')[0][:70] for s in m.get('signatures_reported',[])[:2])
     rows.append('| %s | %s | %s | %s | %s |'%(d,title[:110].replace('|','/'),det,sig,'yes' if m.get('missed_by_the_check_as_it_was_when_the_change_was_made') else ''))
 open('/verif/seeded/MATRIX.md','w').write('# Seeded changes x quick checks (written by tools/matrix.sh)\n\n| id | change | reported by the quick check of its property | first signatures | missed at first (check strengthened since) |\n|---|---|---|---|---|\n'+'\n'.join(rows)+'\n')
 print(len(rows),'rows')
